@@ -33,7 +33,10 @@ BOUNDS = {
              "grid conversions and from_mask grids: all shapes <= 3x4 (all masks of shapes with <= 6 pixels), symbolic origin/scales/points; "
              "mask constructors: per-pixel decision for every pixel of shapes up to 5x4 with symbolic centre, radii, scales (circular family) "
              "and concrete angle set x symbolic axis ratio (elliptical family)",
-    "thorough": "same with shapes up to 6x7 for constructors, masks of shapes with <= 9 pixels",
+    "thorough": "same with: all masks of every shape with <= 12 pixels (from_mask / all_false / extent, symbolic origin); query-point conversions on "
+                "shapes up to 6x6, 7x3, 2x9 (1 point) and 4x4, 3x5 (2 points); 1D masks up to length 8; circular-family constructors per pixel "
+                "on 14 shapes up to 8x5 / 5x9 / 6x7 incl. 1x6 and 6x1; elliptical on 8 shapes up to 6x7 x all six angles; elliptical annulus on "
+                "5 shapes up to 5x4 x six angle pairs; class-level forwarding (incl. omitted defaults) on 5 shapes",
 }
 OUTSIDE = ["shapes beyond the bounds", "coordinates within 1e-9 pixel of a pixel boundary and radii within 1e-9 of a pixel-centre radius (excluded by the property)",
            "elliptical constructors: angles outside the concrete set {0, 30, 45, 120, -60, 200} degrees (right angles give 6e-17 residues in float cos/sin on which z3 nlsat does not terminate)"]
@@ -528,33 +531,38 @@ def cases(tier):
     out = [("case_scalar_symbolic_shape", {"hmax": 64})]
     for (H, W) in [(1, 1), (2, 3), (3, 2), (4, 4), (5, 3), (3, 6)]:
         out.append(("case_scalar_concrete_shape", {"H": H, "W": W}))
-    cap = 6 if tier == "quick" else 9
-    for H in range(1, 5):
-        for W in range(1, 5):
-            if H * W <= cap:
+    cap = 6 if tier == "quick" else 12
+    for H in range(1, 7):
+        for W in range(1, 7):
+            if H * W <= cap and (tier != "quick" or (H < 5 and W < 5)):
                 out.append(("case_grid", {"H": H, "W": W, "N": 0, "scales": GRID_SCALES[(H + 2 * W) % len(GRID_SCALES)]}))
-    for (H, W) in [(1, 1), (1, 4), (3, 1), (2, 3), (3, 3), (3, 4), (4, 3)] + ([] if tier == "quick" else [(5, 4), (4, 6)]):
+    for (H, W) in [(1, 1), (1, 4), (3, 1), (2, 3), (3, 3), (3, 4), (4, 3)] + ([] if tier == "quick" else [(5, 4), (4, 6), (7, 3), (6, 6), (2, 9)]):
         out.append(("case_grid", {"H": H, "W": W, "N": 1, "scales": GRID_SCALES[(H + 2 * W) % len(GRID_SCALES)]}))
     out.append(("case_grid", {"H": 3, "W": 4, "N": 2, "scales": GRID_SCALES[0]}))
     out.append(("case_grid", {"H": 2, "W": 3, "N": 2, "scales": GRID_SCALES[1]}))
+    if tier != "quick":
+        out.append(("case_grid", {"H": 4, "W": 4, "N": 2, "scales": GRID_SCALES[2]}))
+        out.append(("case_grid", {"H": 3, "W": 5, "N": 2, "scales": GRID_SCALES[3]}))
+        for N in range(6, 9):
+            out.append(("case_1d", {"N": N}))
     for N in range(1, 6):
         out.append(("case_1d", {"N": N}))
-    shapes = [(2, 3), (3, 2), (3, 3), (4, 5), (5, 4)] if tier == "quick" else [(2, 3), (3, 2), (3, 3), (3, 4), (4, 3), (4, 5), (5, 4), (6, 7), (7, 5)]
+    shapes = [(2, 3), (3, 2), (3, 3), (4, 5), (5, 4)] if tier == "quick" else [(2, 3), (3, 2), (3, 3), (3, 4), (4, 3), (4, 5), (5, 4), (6, 7), (7, 5), (1, 6), (6, 1), (6, 6), (8, 5), (5, 9)]
     for n, (H, W) in enumerate(shapes):
         for kind in ("circular", "annular", "anti_annular"):
             out.append(("case_constructor", {"H": H, "W": W, "kind": kind, "conc_scales": GRID_SCALES[n % 3], "level": "util"}))
-    eshapes = [(2, 3), (3, 2), (4, 5)] if tier == "quick" else [(2, 3), (3, 2), (3, 4), (4, 3), (4, 5), (6, 7)]
+    eshapes = [(2, 3), (3, 2), (4, 5)] if tier == "quick" else [(2, 3), (3, 2), (3, 4), (4, 3), (4, 5), (6, 7), (5, 5), (7, 4)]
     angs = [0.0, 30.0, 120.0, -60.0] if tier == "quick" else ANGLES
     for n, (H, W) in enumerate(eshapes):
         for k, ang in enumerate(angs):
             out.append(("case_constructor", {"H": H, "W": W, "kind": "elliptical", "angle": ang, "conc_scales": GRID_SCALES[(n + k) % 3], "level": "util"}))
-    for n, (H, W) in enumerate([(3, 3), (3, 4)] if tier == "quick" else [(3, 3), (3, 4), (5, 4)]):
-        for (a1, a2) in ([(0.0, 200.0), (30.0, 45.0)] if tier == "quick" else [(0.0, 200.0), (30.0, 45.0), (120.0, -60.0), (45.0, 45.0)]):
+    for n, (H, W) in enumerate([(3, 3), (3, 4)] if tier == "quick" else [(3, 3), (3, 4), (5, 4), (4, 4), (2, 5)]):
+        for (a1, a2) in ([(0.0, 200.0), (30.0, 45.0)] if tier == "quick" else [(0.0, 200.0), (30.0, 45.0), (120.0, -60.0), (45.0, 45.0), (200.0, 30.0), (-60.0, 120.0)]):
             out.append(("case_constructor", {"H": H, "W": W, "kind": "elliptical_annular", "angle": a1, "angle2": a2,
                                              "conc_scales": GRID_SCALES[n % 3], "level": "util"}))
     for ang in ANGLES:
         out.append(("case_elliptical_radius", {"angle": ang}))
-    for (H, W) in [(1, 2), (2, 3)]:
+    for (H, W) in [(1, 2), (2, 3)] + ([] if tier == "quick" else [(3, 3), (4, 2), (1, 1)]):
         for kind in ("circular", "annular", "anti_annular", "elliptical", "elliptical_annular"):
             out.append(("case_constructor", {"H": H, "W": W, "kind": kind, "angle": 30.0, "angle2": 45.0, "conc_scales": None, "level": "class"}))
             if (H, W) == (2, 3):
